@@ -32,6 +32,14 @@ type c14Case struct {
 	Prog   string        `json:"prog"`
 	Inputs [][][2]string `json:"inputs"`
 	Quiet  bool          `json:"quiet"`
+	// a then-chain of put verbs in ONE process (process-wide caches are shared, as in 'mlr put ... then put ...'):
+	// when non-empty, Prog/Quiet are ignored; the output stream of each verb is the input of the next
+	Chain []c14Verb `json:"chain"`
+}
+
+type c14Verb struct {
+	Prog  string `json:"prog"`
+	Quiet bool   `json:"quiet"`
 }
 
 func c14Value(v *mlrval.Mlrval) interface{} {
@@ -73,7 +81,61 @@ func c14Map(m *mlrval.Mlrmap) []interface{} {
 	return out
 }
 
+func c14RunChain(c *c14Case) map[string]interface{} {
+	options := cli.DefaultOptions()
+	// all the verbs of a chain are built before the first record flows, as ChainTransformer does
+	trs := []*transformers.TransformerPut{}
+	for _, v := range c.Chain {
+		tr, err := transformers.NewTransformerPut(
+			false, []string{v.Prog}, cst.DSLInstanceTypePut, nil,
+			false, false, false, false, false, false, false, false, false,
+			false, v.Quiet, options)
+		if err != nil {
+			return map[string]interface{}{"status": "error", "err": "build: " + err.Error(), "out": []interface{}{}}
+		}
+		trs = append(trs, tr)
+	}
+	context := types.NewContext()
+	context.UpdateForStartOfFile("(stdin)")
+	stream := []*types.RecordAndContext{}
+	for _, recIn := range c.Inputs {
+		rec := mlrval.NewMlrmapAsRecord()
+		for _, kv := range recIn {
+			rec.PutReference(kv[0], mlrval.FromDeferredType(kv[1]))
+		}
+		context.UpdateForInputRecord()
+		stream = append(stream, types.NewRecordAndContext(rec, context))
+	}
+	stream = append(stream, types.NewEndOfStreamMarker(context))
+	inDone := make(chan bool, 1)
+	outDone := make(chan bool, 1)
+	for _, tr := range trs {
+		outs := []*types.RecordAndContext{}
+		for _, item := range stream {
+			if item.Record == nil && !item.EndOfStream {
+				outs = append(outs, item) // printed text passes through the later verbs
+				continue
+			}
+			if err := tr.Transform(item, &outs, inDone, outDone); err != nil {
+				return map[string]interface{}{"status": "error", "err": err.Error(), "out": c14Outs(outs)}
+			}
+		}
+		// exactly one end-of-stream marker, at the end
+		next := []*types.RecordAndContext{}
+		for _, o := range outs {
+			if !o.EndOfStream {
+				next = append(next, o)
+			}
+		}
+		stream = append(next, types.NewEndOfStreamMarker(context))
+	}
+	return map[string]interface{}{"status": "ok", "out": c14Outs(stream)}
+}
+
 func c14RunCase(c *c14Case) map[string]interface{} {
+	if len(c.Chain) > 0 {
+		return c14RunChain(c)
+	}
 	options := cli.DefaultOptions()
 	tr, err := transformers.NewTransformerPut(
 		false, []string{c.Prog}, cst.DSLInstanceTypePut, nil,
